@@ -124,6 +124,19 @@ CLAIMED.update({
              "values are one representative per class; export policy actions are not part of the matrix."),
 })
 
+CLAIMED.update({
+    "C14": dict(
+        category="exploration", design_ref="DESIGN.md 5 (C14)",
+        technique="TLA+ function-style reference semantics Policy.tla: (policy, route) cases enumerated by TLC with the required "
+                  "outcome, each evaluated by the real PolicyTable + apply_import at three address embeddings; panics are violations",
+        text="Every condition of the catalogue against every route of the bounded universe, and 72 two-statement policies for "
+             "ordering / accumulation / default, are enumerated completely by TLC together with the outcome the reference semantics "
+             "requires; the real evaluation is compared case by case.  The clause about deleting / changing referenced objects "
+             "(policy store CRUD) is NOT covered by this check.",
+        note="Trusted: the transcription of the statement into Policy.tla (sanity-checked by TLC); only prefix / AS-path / community "
+             "/ AS-path-length conditions and set-LOCAL_PREF / add-community actions are in the catalogue."),
+})
+
 NOT_YET = {}
 
 HOOK_COMMITS = []
